@@ -192,6 +192,57 @@ def ob_exchange_1_4():
     return run_obligation("exchange_1_and_4", ["gm_sm2::exchange::Exchange::exchange_1", "gm_sm2::exchange::Exchange::exchange_4"], "all states and inputs", body, STUBS)
 
 
+def ob_exchange_new():
+    """Exchange::new: Z of this party from (its ID, its public key), Z of the peer from (the peer's ID, the peer's key); default ID"""
+    def body(stats):
+        c = load_crate(CRATE)
+        for given in (True, False):
+            def run(ctx):
+                dom, ex, W, F, h = world(c, ctx)
+                calls = []
+                def za(ex_, argv):
+                    idv = [dom.term(v) if not (isinstance(v, Sc) and v.conc()) else z3.BitVecVal(v.v, 8) for v in slice_vals(ex_, argv[0])]
+                    pt = pt_term(dom, ex_.load(argv[1]))
+                    out = z3.BitVec("ZAout%d" % len(calls), 256)
+                    calls.append((idv, pt, out))
+                    return Agg([Agg(split_bytes(out, 32), name="array")], 0, "Result::Ok")
+                ex.summaries["compute_za"] = za
+                ida = sym_bytes(dom, "ida", 3); idb = sym_bytes(dom, "idb", 5)
+                opt = lambda bs: Agg([Ref(Cell(Agg(list(bs), name="array"), "id"), (), (0, len(bs)))], 1, "Option") if given else NONE()
+                PA, PB, d = z3.BitVec("PA", 768), z3.BitVec("PB", 768), z3.BitVec("dA", 256)
+                pk = Agg([pt_val(PA)], name="Sm2PublicKey"); rpk = Agg([pt_val(PB)], name="Sm2PublicKey")
+                sk = Agg([u256_val(d), Agg([pt_val(PA)], name="Sm2PublicKey")], name="Sm2PrivateKey")
+                r = ex.run_fn(c.find("Exchange::new"), [Sc(16, "usize"), opt(ida), Ref(Cell(pk, "pk")), Ref(Cell(sk, "sk")), opt(idb), Ref(Cell(rpk, "rpk"))])
+                return dom, calls, ida, idb, (PA, PB, d), r
+            paths = explore(run, prune=lambda a: smt.feasible(a, 5), max_paths=16)
+            check_all_panics(stats, paths)
+            for ctx, (dom, calls, ida, idb, (PA, PB, d), r) in live_paths(paths):
+                if not result_ok(r):
+                    raise Violation("Exchange::new fails although compute_za succeeded")
+                exo = r.f[0]
+                hy = ctx.facts + ctx.pc
+                if len(calls) != 2:
+                    raise Violation("Exchange::new computes %d Z values" % len(calls))
+                default = [z3.BitVecVal(b, 8) for b in b"1234567812345678"]
+                wa = [dom.term(b) for b in ida] if given else default
+                wb = [dom.term(b) for b in idb] if given else default
+                za_t = z3.Concat(*[dom.term(b) for b in exo.f[1].f]); zb_t = z3.Concat(*[dom.term(b) for b in exo.f[7].f])
+                def zof(idw, P):
+                    for idv, pt, out in calls:
+                        if len(idv) == len(idw):
+                            return z3.And(z3.And([a == b for a, b in zip(idv, idw)]), pt == P), out
+                    return z3.BoolVal(False), z3.BitVecVal(0, 256)
+                # own Z: from (own ID, own key); peer's Z: from (peer's ID, peer's key)
+                oks = []
+                for idw, P, stored, what in ((wa, PA, za_t, "own"), (wb, PB, zb_t, "peer's")):
+                    alts = [z3.And(z3.BoolVal(len(idv) == len(idw)), z3.And([a == b for a, b in zip(idv, idw)]) if len(idv) == len(idw) else z3.BoolVal(False), pt == P, stored == out) for idv, pt, out in calls]
+                    discharge(stats, hy, z3.Or(alts), "Exchange::new stores Z of the %s side = compute_za(%s ID%s, %s public key)" % (what, what, "" if given else " defaulting to 1234567812345678", what))
+                discharge(stats, hy, z3.And(pt_term(dom, exo.f[8].f[0]) == PB, u256_term(dom, exo.f[2].f[0]) == d, z3.BoolVal(exo.f[0].conc() and exo.f[0].v == 16)),
+                          "Exchange::new stores klen, the private key and the peer's public key")
+        return {}
+    return run_obligation("exchange_new_binds_ids_and_keys", ["gm_sm2::exchange::Exchange::new"], "all keys; IDs of 3 and 5 bytes (symbolic) and the default ID", body, STUBS + ["compute_za -> uninterpreted (C03)"])
+
+
 def ob_agreement():
     def body(stats):
         dA, dB, rA, rB, x1, x2 = z3.Reals("dA dB rA rB x1b x2b")
@@ -204,7 +255,7 @@ def ob_agreement():
 
 def run(tier, seed, t0):
     klens = [1, 16, 32, 33, 64, 65] if tier == "quick" else list(range(1, 131))
-    jobs = [ob_exchange_1_4, ob_agreement] + [(lambda k=k: side_b(k)) for k in klens] + [(lambda k=k: side_a(k)) for k in klens]
+    jobs = [ob_exchange_1_4, ob_agreement, ob_exchange_new] + [(lambda k=k: side_b(k)) for k in klens] + [(lambda k=k: side_a(k)) for k in klens]
     jobs += [lambda: side_b(16, used=True)]
     import c05
     jobs += [(lambda k=k: c05.ob_kdf(64, k)) for k in (8160, 8161)]      # the KDF itself across its one-byte counter boundary
